@@ -983,7 +983,7 @@ func main() {
 	flag.Set("logtostderr", "true")
 	o := vh.ParseFlags()
 	coalesce.VerifHook = hookDispatch
-	meta := vh.NewMeta("corpus; mode E: every canonical sequence of <=L operations (quick L=6, thorough L=7) over {Insert 0, Insert 1, Next(cancelled ctx), Next(1ms ctx), Close, Len, IsClosed} followed by Len, Close and 3 draining Next, plus seeded random sequences of 4..40 operations over 2-3 items; mode S: blind depth-first enumeration of the schedules of small producer/consumer/Close/Cancel configurations under the barrier scheduler plus seeded random walks over 1-2 producers (1-2 inserts each, items {0,1}) x consumer (1-4 Next) x Close x Cancel, each trace kept only when reproduced; stress: free-running producers with one consumer. distinct = distinct operation sequence resp. distinct (programs, recorded trace); non-trivial = (E) an accepted Insert and a Next that returned an item, (S) at least one producer step and one consumer step")
+	meta := vh.NewMeta("corpus; mode E: every canonical sequence of <=L operations (quick L=5, thorough L=6) over {Insert 0, Insert 1, Next(cancelled ctx), Next(1ms ctx), Close, Len, IsClosed} and every canonical sequence of L+1 operations over the same alphabet without Next(1ms ctx) and IsClosed, each followed by Len, Close and 3 draining Next, plus seeded random sequences of 4..40 operations over 2-3 items; mode S: blind depth-first enumeration of the schedules of small producer/consumer/Close/Cancel configurations under the barrier scheduler plus seeded random walks over 1-2 producers (1-2 inserts each, items {0,1}) x consumer (1-4 Next) x Close x Cancel, each trace kept only when reproduced; stress: free-running producers with one consumer. distinct = distinct operation sequence resp. distinct (programs, recorded trace); non-trivial = (E) an accepted Insert and a Next that returned an item, (S) at least one producer step and one consumer step")
 	e := &emitter{dir: o.Out, cf: vh.NewCaseFile(), meta: meta, limit: 1500}
 
 	if o.Replay != "" {
@@ -1009,14 +1009,15 @@ func main() {
 
 	workers := 8
 
-	// mode E, exhaustive
+	// mode E, exhaustive: the full alphabet to length maxLen, and one level
+	// deeper over the alphabet without Next(1ms ctx) and IsClosed
 	al := exhaustiveAlphabet()
-	maxLen := 6
+	maxLen := 5
 	if o.Thorough() {
-		maxLen = 7
+		maxLen = 6
 	}
 	var jobs []seqJob
-	for L := 1; L <= maxLen; L++ {
+	enum := func(al []Op, L int, family string) {
 		idx := make([]int, L)
 		var rec func(d int)
 		rec = func(d int) {
@@ -1029,7 +1030,7 @@ func main() {
 					return
 				}
 				ops = append(ops, drainSuffix(2)...)
-				jobs = append(jobs, seqJob{family: fmt.Sprintf("E-exhaustive-%d", L), ops: ops})
+				jobs = append(jobs, seqJob{family: family, ops: ops})
 				return
 			}
 			for i := range al {
@@ -1039,6 +1040,16 @@ func main() {
 		}
 		rec(0)
 	}
+	for L := 1; L <= maxLen; L++ {
+		enum(al, L, fmt.Sprintf("E-exhaustive-%d", L))
+	}
+	var al5 []Op
+	for _, op := range al {
+		if !(op.K == "isclosed" || (op.K == "next" && op.C == "short")) {
+			al5 = append(al5, op)
+		}
+	}
+	enum(al5, maxLen+1, fmt.Sprintf("E-exhaustive5-%d", maxLen+1))
 	meta.Extra["E_exhaustive_max_len"] = maxLen
 	meta.Extra["E_exhaustive_alphabet"] = len(al)
 	meta.Extra["E_exhaustive_cases"] = len(jobs)
